@@ -201,6 +201,7 @@ def step (s : St) (ws : List String) : St × String :=
       match lo.toInt?, hi.toInt?, start.toNat? with
       | some lo, some hi, some st =>
           let (s', out) := withEnv s fun cfg st0 =>
+            if !resetAdmissible cfg lo hi st then (st0, "err rejected") else
             let st1 := envReset cfg lo hi st st0.contractClock
             (st1, s!"ok {st1.done} {showOInt st1.now}")
           (s'.setSlot { s'.slot with logSeen := 0 }, out)
